@@ -38,3 +38,7 @@ GENERATORS.append(_extract_tr.gen_cfg_tr)
 # C14: abstract syntax of FunctionSpace.DofManager and SparseMatrixAssembler.assemble_sparse_stiffness_matrix (IR of model/M_C14_IR.v)
 from . import extract_dof as _extract_dof   # noqa: E402
 GENERATORS.append(_extract_dof.gen_cfg_dof)
+
+# C20: output structure of VTKWriter.write and its section writers (IR of model/M_C20_CFG.v)
+from . import extract_vtk as _extract_vtk   # noqa: E402
+GENERATORS.append(_extract_vtk.gen_cfg_vtk)
